@@ -36,6 +36,8 @@ var c19Seeds = []string{
 	"##!> include ok -- @\n", "##!> include nosuchfile -- x y z\n", "##!> include-except ok b -- a\n", "##!> include a --\n", "##!> include a -- \n", "##!> include a -- \"\"\n", "##!> include-except a b -- \"\" \"\" x\n", "##!> include ok -- a b c d e\n",
 	// a replacement that is a single quote character, with an entry that ends in the key; include files that consist of prefix / suffix lines only
 	"##!> include ok -- e \"\n", "##!> include a -- a \"\n", "##!> include-except ok b -- e \" x \"\"\n", "##!^ \\b\n", "##! c\n##!$ x\n", "##!> define d x\n##!^ {{d}}\n", "##!^ a\n##!$ b\n\n",
+	// fragments of a byte order mark at the start of the input
+	"\xef\xbb\n", "\xef\xbb", "\xef\n", "\xef\xbb\xbf", "\xef\xbb\r\nfoo\n", "\xef\xbb\xbf\n\xef\xbb\n", "\xfe\xff", "\xff\xfe\n",
 	"##!> define a {{a}}\n{{a}}\n", "##!> define a {{b}}\n##!> define b {{a}}\n{{a}}{{b}}\n", "##!^ (\n##!$ )\nx\n", "##!^ [\n##!$ ]\nx\n", "(?i)a\n(?s).\n", "a|b|\n|\n", "()\n(|)\n", "[]]\n[^]]\n", "\\\n", "x{2}{3}\n", "a**\n",
 }
 
@@ -98,7 +100,10 @@ func c19Check(env *core.Env, cc core.Case) core.Verdict {
 		invs = []inv{{[]string{"regex", "generate", "-"}, []byte("lead\n##!> include fz\ntail\n")},
 			{[]string{"regex", "generate", "-"}, []byte("##!> include-except fz ok\n##!> include-except ok fz\n##!> include ok -- e E\n")}}
 	default:
-		rc := &rulesCase{Rules: []ruleSpec{{ID: "932100", Chain: []ruleOp{{"@rx", "old"}}}}, Sources: map[string]string{"932100": c.Input}}
+		// the operand stored in the rules file is out of date, and for some inputs it holds many multi-byte characters or
+		// bytes that are not UTF-8 (compare prints both expressions side by side)
+		stored := []string{"old", "old", strings.Repeat("\u00e4\u00f6", 40), strings.Repeat("\u65e5\u672c\u8a9e", 30), "caf\xe9" + strings.Repeat("\xff\xfe", 20), strings.Repeat("x", 49) + "\u00e9\u00e9" + strings.Repeat("y", 70)}[len(c.Input)%6]
+		rc := &rulesCase{Rules: []ruleSpec{{ID: "932100", Chain: []ruleOp{{"@rx", stored}}}}, Sources: map[string]string{"932100": c.Input}}
 		for k, s := range rc.tree() {
 			tree[k] = s
 		}
